@@ -204,6 +204,16 @@ var emailClasses = []string{
 	"long", "unrelated", "addr-near", "addr-multi-at", "star-literal",
 }
 
+// coarse names the input class used in violation signatures (few, stable classes).
+var coarse = map[string]string{
+	"addr-inside": "listed-address", "addr-outside": "listed-address", "addr-inside-case": "listed-address-case-variant", "addr-outside-case": "listed-address-case-variant",
+	"dom-user": "listed-domain", "dom-second": "listed-domain", "dom-user-case": "listed-domain-case-variant",
+	"multi-at-dom": "several-at", "multi-at-mid": "several-at", "addr-multi-at": "several-at",
+	"empty-local": "empty-local-part", "empty": "empty",
+	"lookalike-prefix": "look-alike", "lookalike-suffix": "look-alike", "lookalike-sub": "look-alike", "no-at": "look-alike", "addr-near": "look-alike", "trailing-dot": "look-alike",
+	"whitespace": "white-space", "unicode-local": "non-ascii", "unicode-domain": "non-ascii", "long": "long", "unrelated": "unrelated", "star-literal": "star-literal",
+}
+
 var lookalike = map[string]bool{"lookalike-prefix": true, "lookalike-suffix": true, "lookalike-sub": true, "no-at": true, "addr-near": true, "multi-at-mid": true}
 
 func genEmail(r *rand.Rand, class string, u universe) string {
